@@ -380,6 +380,9 @@ def main(run):
     def on_reject(t, idx, clause):
         e = t['events'][idx - 1]
         cls = 'any'
+        if clause.startswith('C:'):
+            run.note_drift(clause)      # conformance with the design model, not part of the property: reported, never an alarm
+            return True
         fresh = run.violation(clause, cls, {'kind': t['kind'], 'n': t['n'], 'seed': t['seed'], 'flavour': t['flavour'], 'fail': t['fail'], 'index': idx, 'event': e,
                                             'script': t.get('script'), 'label': t.get('label'), 'tail': t['events'][max(0, idx - 8):idx - 1]})
         return not fresh
